@@ -19,6 +19,7 @@ EXPLANATION = (
     "responses carry the request's own id and node address, which at construction derive from the delivered request; "
     "Event::TalkRequest is built only there. R3: in respond and drop the only panic-capable site is the unwrap of the "
     "freshly taken sender (discharged by R1); a closed channel becomes Err(ChannelClosed) resp. a log line.")
+EXPLANATION += (" Added while testing: R1 also requires TALKRESP bodies to be built only in TalkRequest::respond / drop (and the codec); R2 also requires respond to send the payload it was given, untouched; R4: Handler::send_response puts the application's response on the wire whenever a session with the peer exists.")
 NOT_DECIDED = ["that the application eventually drops or answers every request it holds (mem::forget is outside the property)",
                "delivery of the response by the handler (C04/C02)"]
 TRUSTED = ["rustc's move checker (E0382) and trait resolution (E0599)", "Option::take leaves None behind"]
